@@ -187,6 +187,8 @@ def run(tier, corrupt=False):
                     configs.append((order, hs, 1, False))
             configs.append((pick[0], 0, 2, False))          # twice in a row into one directory
             configs.append((pick[-1], 3, 1, True))          # into a pre-populated directory
+            configs.append((pick[0], 1, "reuse", False))    # the same generator instance, after a run that failed on a then-broken file
+            configs.append((pick[-1], 2, "decoy", False))   # after another instance generated a tree with the same names and other ordinals
             expected_paths = None
             for ci, (order, hs, repeat, prepop) in enumerate(configs):
                 out = tmp / f"out_{tname}_{ci}"
